@@ -23,6 +23,26 @@ impl std::io::Read for ShortReader<'_> {
 	}
 }
 
+/// A reader that is interrupted (`ErrorKind::Interrupted`: a signal arrived) on every other call and
+/// delivers 1..=2 bytes otherwise; `read_exact` retries, and so must everything built on `IoReader`.
+struct InterruptedReader<'a> {
+	data: &'a [u8],
+	pos: usize,
+	calls: usize,
+}
+impl std::io::Read for InterruptedReader<'_> {
+	fn read(&mut self, buf: &mut [u8]) -> std::io::Result<usize> {
+		self.calls += 1;
+		if self.calls % 2 == 1 {
+			return Err(std::io::Error::new(std::io::ErrorKind::Interrupted, "signal"));
+		}
+		let n = (1 + self.calls / 2 % 2).min(buf.len()).min(self.data.len() - self.pos);
+		buf[..n].copy_from_slice(&self.data[self.pos..self.pos + n]);
+		self.pos += n;
+		Ok(n)
+	}
+}
+
 /// An `Input` that cannot report its remaining length.
 struct UnknownLen<'a> {
 	data: &'a [u8],
@@ -70,17 +90,32 @@ pub fn run_stacks<T: Cat + DecodeLimit>(ctx: &mut Ctx, name: &str, bs: &[u8], se
 		let r = T::decode(&mut io);
 		(r, io.0.pos)
 	}))));
+	rec("io-interrupted", outcome::<T>(catch_unwind(AssertUnwindSafe(|| {
+		let mut io = IoReader(InterruptedReader { data: bs, pos: 0, calls: 0 });
+		let r = T::decode(&mut io);
+		(r, io.0.pos)
+	}))));
 	rec("unknown-len", outcome::<T>(catch_unwind(AssertUnwindSafe(|| {
 		let mut u = UnknownLen { data: bs, pos: 0 };
 		let r = T::decode(&mut u);
 		(r, u.pos)
 	}))));
+	let mut miscount: Option<(u64, usize)> = None;
 	rec("counted(slice)", outcome::<T>(catch_unwind(AssertUnwindSafe(|| {
 		let mut s = bs;
 		let mut c = CountedInput::new(&mut s);
 		let r = T::decode(&mut c);
+		let n = c.count();
+		if r.is_ok() && n != (len - s.len()) as u64 {
+			miscount = Some((n, len - s.len()));
+		}
 		(r, len - s.len())
 	}))));
+	if let Some((n, consumed)) = miscount {
+		let msg = format!("{}: CountedInput over a slice reports {} bytes after a decode that consumed {} on {}", name, n, consumed, hex_or_dash(bs));
+		ctx.oracle_fail("C08", msg.clone());
+		ctx.oracle_fail("C19", msg);
+	}
 	rec("mem(slice)", outcome::<T>(catch_unwind(AssertUnwindSafe(|| {
 		let mut s = bs;
 		let mut m = MemTrackingInput::new(&mut s, usize::MAX);
